@@ -243,4 +243,28 @@ theorem stagesResources_holds (db : DB R) (f : Filters) (p : RpRow) :
   · intro h e he; exact (mem_idsWithResource db e.1 e.2 p.id).mp (h e he)
   · intro h e he; exact (mem_idsWithResource db e.1 e.2 p.id).mpr (h e he)
 
+theorem runStages_empty {ss : List Stage} (h : Stage.empty ∈ ss) : ∀ rows, runStages ss rows = [] := by
+  induction ss with
+  | nil => cases h
+  | cons s rest ih =>
+    intro rows
+    cases s with
+    | empty => simp [runStages]
+    | clause g =>
+      simp only [runStages]
+      exact ih (by simpa using h) _
+
+omit [CapOps R] in
+theorem resolveResources_none (db : DB R) {res : List (Nat × Int)} {n : Nat} {a : Int} (hm : (n, a) ∈ res)
+    (hn : db.rcId n = none) : resolveResources db res = none := by
+  induction res with
+  | nil => cases hm
+  | cons e rest ih =>
+    obtain ⟨n', a'⟩ := e
+    rcases List.mem_cons.mp hm with h | h
+    · cases h
+      simp [resolveResources, hn]
+    · simp only [resolveResources, ih h]
+      cases db.rcId n' <;> rfl
+
 end Placement.Spec
